@@ -200,7 +200,13 @@ std::string RouterSession::throughShapeClass(const Cn &c, Pt p, Pt q, const Poly
         for (auto &sk : shapes) if (sk.second.alive) for (auto &v : sk.second.poly) if (std::fabs(v.x - e.x) < 1e-7 && std::fabs(v.y - e.y) < 1e-7) return true;
         return false;
     };
-    if (isVertex(e0) && isVertex(e1)) return ":enters-and-leaves-at-shape-vertices";
+    if (isVertex(e0) && isVertex(e1)) {
+        // sub-class: BOTH contact points are vertices of other (touching) shapes lying in the open interior of an edge of the crossed
+        // shape -- a chord between two mid-edge contacts, not a pass through one of the crossed shape's own corners
+        auto ownVertex = [&](Pt e) { for (auto &v : poly) if (std::fabs(v.x - e.x) < 1e-7 && std::fabs(v.y - e.y) < 1e-7) return true; return false; };
+        if (!ownVertex(e0) && !ownVertex(e1)) return ":enters-and-leaves-at-shape-vertices:both-contacts-in-the-middle-of-edges-of-the-crossed-shape";
+        return ":enters-and-leaves-at-shape-vertices";
+    }
     return "";
 }
 
